@@ -1434,7 +1434,15 @@ parse_report(const std::string& err, std::vector<std::string>& frames, std::stri
 std::string
 known_site_signature(const std::vector<std::string>& frames, const std::string& headline)
 {
-  if (c17::no_exclude() || frames.empty())
+  if (c17::no_exclude())
+    return "";
+  // F12: arithmetic undefined behaviour on boundary numbers (NaN/inf/huge converted to int, signed overflow): reported by
+  // UBSan all over the geometry code once a header carries such a number; not a memory error, one class for all sites
+  if (headline.find("runtime error:") != std::string::npos
+      && (headline.find("is outside the range of representable values") != std::string::npos
+          || headline.find("signed integer overflow") != std::string::npos || headline.find("cannot be represented in type") != std::string::npos))
+    return "C17:ubsan:arithmetic undefined behaviour on boundary numbers (F12)";
+  if (frames.empty())
     return "";
   for (const KnownSite& k : KNOWN_SITES)
     {
